@@ -11,8 +11,8 @@ ID = "C16"
 LEVEL = "exploration"
 RULE = ("Hypothesis: ICG_Gym_Linear(ICG_Gym(...)), n=3..6, hidden games from harness constructions and registered families; a "
         "sequence of drawn sizes, each mapped onto the currently allowed ones, until done, with interleaved reset(); the global "
-        "numpy generator (the wrapper's tie-break source) is seeded per case. Model = the inner environment's knowledge. Before "
-        "each step the mask must allow size k iff some explorable coalition of size k is unknown; a step reveals exactly one "
+        "numpy generator (the wrapper's tie-break source) is seeded per case. Model = the inner environment's knowledge. The wrapper's mask is queried before some steps only (drawn pattern: always / never / every other ...); when queried "
+        "the mask must allow size k iff some explorable coalition of size k is unknown; a step reveals exactly one "
         "previously unknown coalition of that size and reports it; reward/done equal the inner environment's; the observation "
         "(returned and .state, after reset and every step) has length n and equals the per-size sum of the inner observation "
         "(own summation). Non-trivial: sequence uses >= 2 sizes and exhausts at least one size; distinct = hash of the case.")
@@ -50,7 +50,8 @@ def cases(draw, n_min: int, n_max: int):
             ops.append("reset")
     ops = ops[:48]
     return {"n": n, "game": spec, "computer": comp, "gap": draw(st.sampled_from(["exploitability", "l1_norm"])),
-            "budget": draw(st.sampled_from([None, None, 3])), "seed": draw(st.integers(0, 2**31)), "ops": ops}
+            "budget": draw(st.sampled_from([None, None, 3])), "seed": draw(st.integers(0, 2**31)), "ops": ops,
+            "mask_queries": draw(st.sampled_from([255, 0, 0, 0b01010101, 0b00010001, 1]))}
 
 
 @guarded
@@ -88,12 +89,15 @@ def check_case(case: dict) -> Result:
         if any(abs(a - b) > 1e-12 * (1 + abs(b)) for a, b in zip(obs, want)):
             res.fail(f"observation :: {where}: {obs} expected per-size sums {want}")
 
-    def check_mask(where):
-        mask = [bool(x) for x in env.action_masks()]
+    def check_mask(where, query: bool = True):
+        """Allowed sizes from the model; the wrapper's own mask is only queried when ``query`` (a caller that steps several
+        times in a row without asking for the mask is legal too)."""
         K = known_set()
         want = [any(popcount(s) == k and s not in K for s in explorable) for k in range(n)]
-        if mask != want:
-            res.fail(f"mask :: {where}: {mask} expected {want}")
+        if query:
+            mask = [bool(x) for x in env.action_masks()]
+            if mask != want:
+                res.fail(f"mask :: {where}: {mask} expected {want}")
         return want
 
     obs, info = env.reset()
@@ -104,7 +108,7 @@ def check_case(case: dict) -> Result:
         if res.failures:
             break
         where = f"op {i}"
-        allowed = check_mask(where)
+        allowed = check_mask(where, query=(case.get("mask_queries", 255) >> (i % 8)) & 1 == 1)
         if op == "reset":
             obs, info = env.reset()
             if known_set() != minimal_masks(n):
